@@ -187,7 +187,17 @@ func (g *Gen) ConfigTOML() string {
 		fmt.Fprintf(&b, "MaxChannels = %d\n", g.R.Intn(4)+1)
 	}
 	g.captcha = false
-	if g.P.Captcha && g.R.Intn(4) != 0 {
+	if g.P.Extra && g.P.Captcha && g.R.Intn(6) == 0 {
+		// half a captcha configuration: only the URL, only the secret, or an empty secret
+		switch g.R.Intn(3) {
+		case 0:
+			fmt.Fprintf(&b, "CaptchaURL = \"http://captcha.example/\"\n")
+		case 1:
+			fmt.Fprintf(&b, "CaptchaHMACSecret = %q\n", CaptchaKey)
+		default:
+			fmt.Fprintf(&b, "CaptchaURL = \"http://captcha.example/\"\nCaptchaHMACSecret = \"\"\n")
+		}
+	} else if g.P.Captcha && g.R.Intn(4) != 0 {
 		g.captcha = true
 		fmt.Fprintf(&b, "CaptchaURL = \"http://captcha.example/\"\n")
 		fmt.Fprintf(&b, "CaptchaHMACSecret = %q\n", CaptchaKey)
@@ -712,6 +722,10 @@ func (g *Gen) linkLine(s *gsess) string {
 			n := g.anyNick()
 			return assemble(pfx, cmd, []string{n, g.caseVariant(n)}, true, "1425036445")
 		}
+		if g.P.Extra && g.R.Intn(6) == 0 {
+			// a nickname that happens to be in use (services pick "Guest12345"; so may a user)
+			return assemble(pfx, cmd, []string{g.anyNick(), g.anyNick()}, true, "1425036445")
+		}
 		return assemble(pfx, cmd, []string{g.anyNick(), fmt.Sprintf("Guest%d", 70000+g.fresh)}, true, "1425036445")
 	case "TOPIC":
 		return assemble(pfx, cmd, []string{g.anyChan(), g.anyNick(), g.pick([]string{"0", "1425036445", "x", "-1"})}, true, g.pick([]string{"", "services topic"}))
@@ -874,7 +888,7 @@ func (g *Gen) scenario() {
 	ch := g.pick([]string{"#s1", "#s2", "#S1", "#s3"})
 	nsc := 11
 	if g.P.Extra {
-		nsc = 18
+		nsc = 19
 	}
 	sc := g.R.Intn(nsc)
 	if sc >= 11 {
@@ -1080,6 +1094,14 @@ func (g *Gen) extraScenario(sc int, a, b *gsess, rs []*gsess) {
 				break
 			}
 		}
+	case 18: // a captcha-protected channel is attempted whatever the configuration says about captchas
+		ch := g.pick([]string{"#s9", "#S9"})
+		g.line(a, "JOIN "+ch)
+		g.line(a, "MODE "+ch+" +x")
+		g.line(a, "MODE "+ch)
+		g.line(b, "JOIN "+ch)
+		g.line(b, "JOIN "+ch+" "+g.captchaToken(ch))
+		g.line(a, "MODE "+ch+" -x")
 	case 17: // services take a user out of a channel (or put it in); what the user may do there follows
 		for _, s := range g.live() {
 			if s.link && len(s.pseudo) > 0 {
@@ -1176,6 +1198,8 @@ func ParamsFor(prop string, seed int64, tier string, commands []string) Params {
 		p.Garbage = 0.25
 		p.WildServiceNicks = r%2 == 0
 		p.Limits = r%3 == 0
+	case "C03":
+		p.Captcha = r%2 == 0
 	case "C13":
 		p.Captcha = r%2 == 1
 		p.Garbage = 0.01
